@@ -39,6 +39,7 @@ func runC07(c *Ctx) {
 	sentinelIdentity(c, "R8")
 	fuzzLimitGuarded(c, "R9")
 	c.shared("R7", "C02/R3", "next and exit are consumed exactly by the rule drivers: every test against errNext / errExit sits in a driver, so a `next` leaves the current rule list and an `exit` the run from any nesting of statements", nil, c02R3)
+	c.shared("R13", "C15/R2", "for-in visits every element once, in order, whatever the body does to the array: the loop ranges the slice it started with, and no array method moves or clears cells inside that backing array (pop and popfirst only re-slice, push appends)", keyHas("array.pop", "array.popfirst", "array.push"), func(s *Ctx) { c15R2(s, nativeMethods(s.P)) })
 	c.shared("R12", "C01/R2", "break and continue are accepted in every loop nesting: the parser's in-loop flag is set for a loop body and restored to what it was before (not cleared) when the body ends, so the rest of an enclosing loop's body is still inside a loop", keyHas("region inLoop"), func(s *Ctx) { scopeAgreement(s, "R2") })
 	mapRangeOrder(c, "R5")
 	c07ForIn(c, es)
